@@ -310,6 +310,9 @@ func redisValue(r *Rand, big bool) []byte {
 		return []byte("\r")
 	case 9:
 		return []byte("12345")
+	case 10:
+		// values that meet the query lexer's escapes once Summarize puts them between quotes (C16)
+		return []byte(r.Pick([]string{`a"b`, `a\'b`, `a\101b`, `a\x41b`, `a\qb`, `trail\`, `a\tb`, `\u00e9`, `\x4`, `a\\b`, `it's`, `\18`, `\U0001F600`, `\"`}))
 	default:
 		return []byte(fmt.Sprintf("v%d", r.Intn(1000)))
 	}
